@@ -43,7 +43,41 @@ fn judge(rep: &mut Report, what: &str, expected: &Class, bytes: &[u8], layout: &
     }
 }
 
+/// `c01 --miri-slice <seed> <cases> <max seconds>`: single-threaded, no files. Small generated classes whose names,
+/// descriptors and strings are redrawn from cf::hostile (NUL, 2/3-byte boundaries, supplementary characters, lone and reversed
+/// surrogates, one-character and long names, class names filling a descriptor edge to edge), emitted under a canonical and a
+/// random layout in turn, read by the real reader under the interpreter and compared fact by fact as the ordinary workload does.
+fn miri_slice(seed: u64, cases: usize, max_s: u64) -> i32 {
+    let mut rep = Report::new();
+    let deadline = std::time::Instant::now() + std::time::Duration::from_secs(max_s);
+    // parameter annotations off: the reader drops them (known finding), and reporting that costs seconds of interpreter time per case
+    let cfg = gen::GenCfg { max_fields: 2, max_methods: 2, max_insns: 6, param_annotations: false, ..gen::GenCfg::default() };
+    let mut tags = std::collections::BTreeSet::new();
+    let (mut i, mut bytes_read, mut skipped) = (0u64, 0usize, 0u64);
+    while (i as usize) < cases && std::time::Instant::now() < deadline {
+        let mut rng = Rng::new(common::rng::case_seed(seed, "C01/miri", i));
+        rep.cur = ("miri".into(), i);
+        let mut m = gen::gen_class(&mut rng, &cfg);
+        // "long" names: up to 48 bytes in most cases, 300 in every fourth, 4000 in every sixteenth (interpreter time goes with the bytes)
+        tags.extend(cf::hostile::hostilise(&mut rng, &mut m, (1, 2), if i % 16 == 15 { 4000 } else if i % 4 == 3 { 300 } else { 48 }));
+        let layout = if i % 2 == 0 { emit::Layout::canonical() } else { let mut l = emit::Layout::random(rng.next_u64()); if rng.chance(1, 4) { l.pool_filler = 250 + rng.below(20); } l };
+        let lname = if layout.canonical { "canonical".to_string() } else { format!("random seed={} filler={}", layout.seed, layout.pool_filler) };
+        i += 1;
+        let bytes = match emit::emit(&m, &layout) { Ok(b) => b, Err(_) => { skipped += 1; continue; } };
+        match parse::parse(&bytes) {
+            Ok(p) if p == m => {}
+            other => { eprintln!("HARNESS-ERROR miri slice: parse(emit(M)) != M (case {}, layout {lname}): {:?}", i - 1, other.err()); return 3; }
+        }
+        rep.eval(); bytes_read += bytes.len();
+        judge(&mut rep, "generated (miri slice, hostile names)", &m, &bytes, &lname);
+    }
+    for v in rep.violations.values() { println!("SLICE-OBSERVATION {} ({}x)", v.signature, v.count); }
+    println!("MIRI-SLICE done cases={} (asked for {}) evaluations={} observations={} classes_read_equal={} bytes_read={} emit_skipped={} hostile_kinds={}: {}", i, cases, rep.evaluations, rep.violations.len(), rep.get("reads.equal"), bytes_read, skipped, tags.len(), tags.iter().copied().collect::<Vec<_>>().join(","));
+    0
+}
+
 fn main() {
+    if let Some((seed, n, max_s)) = common::miri::slice_args() { std::process::exit(miri_slice(seed, n, max_s)); }
     let mut ctx = Ctx::from_args("C01", 40, 480);
     let replay = load_replay(&mut ctx);
     let mut rep = Report::new();
@@ -159,7 +193,16 @@ fn main() {
         meta.oblige("classes with an annotation nested 40..200 levels deep", rep.get("shape.annotation_nested_40_to_200_levels") >= 20);
         meta.oblige("attribute payloads larger than 65536 bytes were read at class, field, method and Code level and as SourceDebugExtension", rep.get("large.over_65536") >= 30 && ["large.class.unknown", "large.class.source_debug_extension", "large.field.unknown", "large.method.unknown", "large.code.unknown"].iter().all(|k| rep.get(k) > 0));
     }
+    if replay.is_none() {
+        if ctx.tier == Tier::Thorough {
+            let r = common::miri::run_slice(&ctx, "c01", env!("CARGO_MANIFEST_DIR"), MIRI_CASES, 170, 300);
+            if let Some(line) = r.ub { rep.cur = ("miri".into(), 0); rep.violation(format!("miri: {line}"), json!({"how": format!("cargo +nightly miri run --offline -p c01 -- --miri-slice <seed> {MIRI_CASES} 170"), "seed": ctx.seed as i64, "status": r.status})); }
+            meta.extra.insert("miri_slice".into(), json!(r.status));
+        } else { meta.extra.insert("miri_slice".into(), json!("not run in the quick tier")); }
+    }
     std::process::exit(finish(&ctx, rep, meta));
 }
+/// cases asked of the Miri slice in the thorough tier; it stops by itself after 170 s (measured: 6-9 s per case, see NOTES.md)
+const MIRI_CASES: usize = 40;
 
 fn rng_seed(s: &str) -> u64 { common::rng::fnv_str(s) }
